@@ -1,10 +1,19 @@
 (* Props/C03.v — property C03: every written XML scenario file is valid against the 2020a schema.
-   Statements only.  Proved here: element ORDER (the writer's generated table vs the xs:sequence order
-   generated from the shipped XSD) and plain decimal NOTATION of the numbers written by float_to_str.
-   Required elements, enumeration values and key constraints depend on the value written and are decided
-   by validating every generated document with lxml against the shipped XSD (oracle) - see DESIGN. *)
+   Statements only.
+   (1) element ORDER (the writer's generated table vs the xs:sequence order of the shipped XSD) and plain
+       decimal NOTATION of float_to_str - the earlier theorems, kept;
+   (2) the Gallina XSD validator (Model/XsdCheck.v) on the schema GENERATED from the shipped XSD
+       (Gen/Xsd2020a.v): static conformance of the writer's table + a schema-expressible value (DESIGN 2.7:
+       occurrence counts within bounds, positive dimensions, integer ranges, enumeration members) =>
+       the validator accepts what the generic writer emits: children sequences incl. occurrence bounds,
+       attributes (declared, required present), every leaf text in the lexical space of its simple type.
+   Outside the theorem, named ..._partial: the id / ref identity constraints (checked by [validates], compared
+   with lxml on every document, not derived from the value), and the number printer (hypothesis
+   [num_printer_ok]: plain decimal text, positive stays positive - its lexical half is proved for
+   float_to_str, C03_float_to_str_text_is_xs_decimal). *)
 From Coq Require Import QArith ZArith String List Bool.
 From CR Require Import Model.Codec Model.DecStr Proofs.Order Proofs.DecStr Gen.XmlFmt Gen.XsdOrder Proofs.XsdOrder.
+From CR Require Import Model.XsdCheck Gen.Xsd2020a Proofs.XsdCheck Proofs.XsdC03.
 Import ListNotations.
 Open Scope string_scope.
 Open Scope list_scope.
@@ -16,7 +25,7 @@ Proof. exact write_fields_in_order. Qed.
 
 (* side condition on the two generated tables: for each of the element kinds whose XSD type is an
    xs:sequence, the writer's element order is a subsequence of the schema's *)
-Theorem C03_table_order_conforms : forallb order_ok xsd_sequences = true.
+Theorem C03_table_order_conforms : forallb CR.Proofs.XsdOrder.order_ok xsd_sequences = true.
 Proof. exact table_order_conforms. Qed.
 Theorem C03_table_covers : Nat.leb 20 (length xsd_sequences) = true.
 Proof. exact xsd_table_nonempty. Qed.
@@ -39,9 +48,96 @@ Proof. intros d x H. destruct (float_to_str_contract d x H) as [A [B C]]. split;
 Example C03_nonvacuous : exists order, In ("point", W.f_point, order) xsd_sequences /\ order = ["x"; "y"; "z"].
 Proof. eexists. split; [vm_compute; tauto|reflexivity]. Qed.
 
+(* ------------------------------------------------------------------ the XSD validator *)
+(* greedy matching never needs to backtrack on children emitted in a conforming table order *)
+Theorem C03_greedy_sequence_complete : forall gs bs, CR.Model.XsdCheck.order_ok gs (map fst bs) = true -> counts_fit gs bs = true ->
+  match_seq gs (expand bs) = true.
+Proof. exact seq_complete. Qed.
+
+(* generic, element level: conforms (static, on the tables) + expressible (the value) => accepted *)
+Theorem C03_write_valid : forall sch numtext, num_printer_ok numtext -> forall f ty tag v t,
+  conforms sch ty f = true -> expressible sch ty f v = true -> write f tag v = Some t ->
+  valid_el sch ty (render numtext t) = true.
+Proof. exact write_valid. Qed.
+
+(* generic, document level; partial: the identity constraints (keys_ok) are not part of the conclusion *)
+Theorem C03_doc_valid_structure_partial : forall sch numtext, num_printer_ok numtext -> forall f v t extra,
+  conforms_doc sch (map fst extra) f = true -> doc_extra_ok sch extra = true ->
+  expressible sch (s_root_type sch) f v = true -> write f (s_root sch) v = Some t ->
+  validates_structure sch (add_attrs extra (render numtext t)) = true.
+Proof. exact doc_valid_structure. Qed.
+
+(* side condition on the two generated tables, by vm_compute *)
+Theorem C03_conforms_xml : conforms_doc xsd2020a ["date"] W.xml_root = true.
+Proof. exact conforms_xml. Qed.
+Theorem C03_elements_conform : forallb (fun r => conforms xsd2020a (TC (fst r)) (snd r)) element_rows = true.
+Proof. exact elements_conform. Qed.
+
+(* hence, for the shipped schema and the writer's table: every schema-expressible document value is written
+   as a structurally valid document (the date attribute is supplied by the writer outside the table) *)
+Theorem C03_xml_valid_structure_partial : forall numtext, num_printer_ok numtext -> forall v t d,
+  simple_accepts xsd2020a "xs:date" d = true ->
+  expressible xsd2020a (TC "<commonRoad>") W.xml_root v = true ->
+  write W.xml_root "commonRoad" v = Some t ->
+  validates_structure xsd2020a (add_attrs [("date", d)] (render numtext t)) = true.
+Proof. exact xml_valid_structure. Qed.
+Theorem C03_xml_element_valid : forall numtext, num_printer_ok numtext -> forall n f, In (n, f) element_rows ->
+  forall tag v t, expressible xsd2020a (TC n) f v = true -> write f tag v = Some t ->
+  valid_el xsd2020a (TC n) (render numtext t) = true.
+Proof. exact xml_element_valid. Qed.
+
+(* leaf texts: integers are printed in the lexical space of xs:integer with their own value; the text
+   float_to_str produces for a plain decimal is an xs:decimal *)
+Theorem C03_int_text_value : forall z, int_value (Ztext z) = Some z.
+Proof. exact int_value_Ztext. Qed.
+Theorem C03_float_to_str_text_is_xs_decimal : forall d x, plain_decimal x = true ->
+  accepts (mk_stype PDecimal None None None None) (dec_text (float_to_str d x)) = true.
+Proof. exact float_to_str_text_decimal. Qed.
+
+(* non-vacuity / sensitivity *)
+Example C03_rect_expressible : expressible xsd2020a (TC "rectangle") W.f_rectangle rect_val = true.
+Proof. exact rect_expressible. Qed.
+Example C03_zero_length_not_expressible :
+  expressible xsd2020a (TC "rectangle") W.f_rectangle (VRec [VAtom (ANum 0); VAtom (ANum 2); VNone; VNone]) = false.
+Proof. exact rect_zero_not_expressible. Qed.
+Example C03_swapped_table_rejected :
+  conforms xsd2020a (TC "rectangle")
+    (FRec (FCons "width" MReq (FLeaf KNum) (FCons "length" MReq (FLeaf KNum) FNil))) = false.
+Proof. exact swapped_table_rejected. Qed.
+Example C03_wrong_leaf_kind_rejected :
+  conforms xsd2020a (TC "circle") (FRec (FCons "radius" MReq (FLeaf KBool) FNil)) = false.
+Proof. exact wrong_leaf_kind_rejected. Qed.
+Example C03_missing_id_rejected :
+  conforms xsd2020a (TC "environmentObstacle")
+    (FRec (FCons "type" MReq (FLeaf KStr) (FCons "shape" MReq W.f_shape FNil))) = false.
+Proof. exact missing_id_rejected. Qed.
+(* the validator itself, on concrete elements: accepts a rectangle, rejects exponent notation, a missing
+   required child, children in the wrong order *)
+Example C03_validator_discriminates :
+  valid_el xsd2020a (TC "rectangle") (XE "rectangle" [] [XE "length" [] [] "4.5"; XE "width" [] [] "2"] "") = true /\
+  valid_el xsd2020a (TC "rectangle") (XE "rectangle" [] [XE "length" [] [] "1e-05"; XE "width" [] [] "2"] "") = false /\
+  valid_el xsd2020a (TC "rectangle") (XE "rectangle" [] [XE "length" [] [] "4.5"] "") = false /\
+  valid_el xsd2020a (TC "rectangle") (XE "rectangle" [] [XE "width" [] [] "2"; XE "length" [] [] "4.5"] "") = false.
+Proof. exact validator_discriminates. Qed.
+
 Print Assumptions C03_children_in_table_order.
 Print Assumptions C03_table_order_conforms.
 Print Assumptions C03_table_covers.
 Print Assumptions C03_elements_in_schema_order.
 Print Assumptions C03_float_to_str_plain.
 Print Assumptions C03_nonvacuous.
+Print Assumptions C03_greedy_sequence_complete.
+Print Assumptions C03_write_valid.
+Print Assumptions C03_doc_valid_structure_partial.
+Print Assumptions C03_conforms_xml.
+Print Assumptions C03_elements_conform.
+Print Assumptions C03_xml_valid_structure_partial.
+Print Assumptions C03_xml_element_valid.
+Print Assumptions C03_int_text_value.
+Print Assumptions C03_float_to_str_text_is_xs_decimal.
+Print Assumptions C03_rect_expressible.
+Print Assumptions C03_zero_length_not_expressible.
+Print Assumptions C03_swapped_table_rejected.
+Print Assumptions C03_wrong_leaf_kind_rejected.
+Print Assumptions C03_missing_id_rejected.
+Print Assumptions C03_validator_discriminates.
